@@ -58,6 +58,7 @@ type c19World struct {
 	channels []ophosthook.PortChannelID
 	metadata map[uint64][]byte
 	feat     map[string]int
+	forceMD  []byte // the next operation uses exactly this metadata
 }
 
 func (w *c19World) tr() []string { return tail(w.log, 30) }
@@ -113,6 +114,9 @@ var c19Corpus = func() [][]byte {
 		[]byte(`{"Perm_Channels":[` + ch("transfer", "channel-2") + `]}`),                                                       // differently-cased key only
 		[]byte(`{"PERM_CHANNELS":[` + ch("transfer", "channel-3") + `],"perm_channels":[` + ch("transfer", "channel-2") + `]}`), // both casings
 		[]byte(`{"perm_channels":[` + ch("transfer", "channel-2") + `],"perm_channels":[` + ch("transfer", "channel-3") + `]}`), // duplicate key, different values
+		[]byte(`{"perm_channels":[` + ch("transfer", "channel-0") + `],"Perm_channels":[` + ch("transfer", "channel-2") + `]}`), // exact key first, another casing after it (the order of the keys matters: the later one decides)
+		[]byte(`{"perm_channels":[` + ch("transfer", "channel-1") + `],"PERM_CHANNELS":[` + ch("transfer", "channel-3") + `]}`),
+		[]byte(`{"z":0,"perm_channels":[` + ch("transfer", "channel-1") + `,` + ch("transfer", "channel-0") + `],"a":1}`),      // unknown keys around it, list not in sorted order
 		[]byte(`{"perm_channels":[{"PORT_ID":"transfer","Channel_Id":"channel-3"}]}`),                                           // cased inner keys
 		[]byte(`{"perm_channels":[{"port_id":"transfer"}]}`),                                                                    // missing channel id
 		[]byte(`{"perm_channels":[{"port_id":7,"channel_id":"channel-0"}]}`),                                                    // wrong type
@@ -198,6 +202,11 @@ func (w *c19World) snapshotStates(md []byte) map[string]chanState {
 }
 
 func (w *c19World) pickMetadata() []byte {
+	if w.forceMD != nil {
+		md := w.forceMD
+		w.forceMD = nil
+		return md
+	}
 	if w.rng.Chance(35) {
 		// generated valid list over the known channels
 		n := w.rng.Intn(5)
@@ -317,11 +326,12 @@ func (w *c19World) opChannel() {
 }
 
 func checkC19(run *mon.Run, rng *mon.Rand, thorough bool) {
-	run.Rule = "reference model of the grant rule vs the real hook.BridgeHook wired into the real ophost keeper (message path: hook before store, error aborts) in front of in-store channel / permission stand-ins. Random histories of create / update-metadata / update-challenger over bridges sharing 6 channels and few challengers, with a 29-entry metadata corpus (valid lists, duplicates, unknown fields, differently-cased and duplicate keys, wrong types, non-JSON, invalid UTF-8, >5 KiB) plus generated lists, while channels open, send packets and get taken by strangers. Distinct non-trivial = (operation, outcome class, list length) Both directions of the grant rule are asserted; the reference parser declares the documented structure itself."
+	run.Rule = "reference model of the grant rule vs the real hook.BridgeHook wired into the real ophost keeper (message path: hook before store, error aborts) in front of in-store channel / permission stand-ins. Random histories of create / update-metadata / update-challenger over bridges sharing 6 channels and few challengers, with a metadata corpus of some 35 entries (valid lists, duplicates, unknown fields, differently-cased and duplicate keys, wrong types, non-JSON, invalid UTF-8, >5 KiB) plus generated lists and lists of 31..90 channels, while channels open, send packets and get taken by strangers. Distinct non-trivial = (operation, outcome class, list length) Both directions of the grant rule are asserted; the reference parser declares the documented structure itself."
 	run.Assumptions = []string{"strict decoding is decided with encoding/json (exact-key probe + DisallowUnknownFields)", "one-directional reading: a grant implies the stated channel conditions, and a violated condition implies failure"}
 	for _, c := range []string{"C19.unparsable_metadata_touches_nothing", "C19.grant_conditions_enforced", "C19.exactly_listed_channels_granted", "C19.challenger_change_hands_over_listed_channels"} {
 		run.Declare(c, 10)
 	}
+	c19LongLists(run, rng.Split())
 	hist := pick(thorough, 80, 2500)
 	steps := pick(thorough, 150, 400)
 	feat := map[string]int{}
@@ -360,5 +370,45 @@ func checkC19(run *mon.Run, rng *mon.Rand, thorough bool) {
 	}
 	for k, v := range feat {
 		run.Counters["feature."+k] = v
+	}
+}
+
+// c19LongLists: the rule has no upper bound on the number of listed channels other than the metadata size limit: lists of
+// 31..90 channels are granted, handed over and refused (one listed channel missing) like short ones.
+func c19LongLists(run *mon.Run, rng *mon.Rand) {
+	for _, n := range []int{31, 32, 33, 34, 64, 90} {
+		w := &c19World{run: run, rng: rng.Split(), env: newL1Env(0, nil), metadata: map[uint64][]byte{}, feat: map[string]int{}}
+		for i := 0; i <= n; i++ {
+			w.channels = append(w.channels, ophosthook.PortChannelID{PortID: "transfer", ChannelID: fmt.Sprintf("channel-%d", 100+i)})
+		}
+		for _, pc := range w.channels[:n] { // the last one does not exist yet
+			w.env.L1.Chan.Set(w.env.L1.Ctx, pc.PortID, pc.ChannelID, 1)
+		}
+		list := func(k int) []byte {
+			var parts []string
+			for _, pc := range w.channels[:k] {
+				parts = append(parts, fmt.Sprintf(`{"port_id":%q,"channel_id":%q}`, pc.PortID, pc.ChannelID))
+			}
+			return []byte(`{"perm_channels":[` + strings.Join(parts, ",") + `]}`)
+		}
+		w.forceMD = list(n + 1) // one listed channel is missing: refused
+		w.opCreate()
+		w.forceMD = list(n - 1)
+		w.opCreate()
+		if len(w.env.Bridges) == 0 {
+			continue // reported by opCreate (a clearly grantable list was refused)
+		}
+		w.opUpdateChallenger()
+		w.forceMD = list(n) // the list grows by one fresh channel
+		w.opUpdateMetadata()
+		w.opUpdateChallenger()
+		w.forceMD = list(n + 1) // grows by a channel that does not exist: refused, nothing changes
+		w.opUpdateMetadata()
+		last := w.channels[n]
+		w.env.L1.Chan.Set(w.env.L1.Ctx, last.PortID, last.ChannelID, 1)
+		w.forceMD = list(n + 1)
+		w.opUpdateMetadata()
+		w.opUpdateChallenger()
+		run.Distinct(fmt.Sprintf("long-list/%d", n))
 	}
 }
